@@ -117,6 +117,7 @@ def declare(rep):
     rep.rule("C14.difference-form", "in the contact routines every norm, dot and cross product is taken of translation-invariant vectors (differences of positions, normals): a distance written as |a|^2 - 2a.b + |b|^2 is invariant only through cancellation of terms that grow with the distance to the origin, so its rounding error - and with it the coupling decisions - depends on where the tissue lies", floor=3)
     rep.rule("C14.decisions", "both operands of every position-dependent comparison in the refiner, contact phases, box test and divider have equal weights", floor=10)
     rep.rule("C14.extrema-sentinels", "running minima start from a value no coordinate exceeds (+infinity / max()), running maxima from one no coordinate is below (-infinity / lowest()): numeric_limits::min() is the smallest POSITIVE double, a tissue with negative coordinates would never lower it", floor=6)
+    rep.rule("C14.rounded-positions", "in the automatic polarizer every floor / ceil is taken of a translation-invariant quantity (a coordinate difference divided by the voxel size): rounding an absolute coordinate ties the result to the lattice through the origin of the coordinate system instead of the grid, which is anchored at the tissue (found D22)", floor=3)
     rep.rule("C14.grid", "grid quantisation numerators have weight 0; face boxes and global extrema have weight 1 on their own axis", floor=12)
 
 
@@ -198,6 +199,7 @@ def run(rep, prog, tier):
     decisions(rep, prog, cm)
     difference_form(rep, prog, cm)
     grid(rep, prog, cm)
+    rounded_positions(rep, prog)
     extrema_sentinels(rep, prog)
 
 
@@ -487,3 +489,54 @@ def extrema_sentinels(rep, prog):
                 what = {"tiny": "the smallest positive double (numeric_limits::min/epsilon)", "plus": "a huge positive value", "minus": "a huge negative value"}[cls]
                 rep.violation("C14.extrema-sentinels", prog, fn, init, "running %s %s starts from %s" % (kind, X, cls),
                               "%s: the running %s %s is initialised with %s: coordinates on the wrong side of it are never taken (e.g. a tissue translated into the negative octant keeps a maximum of ~0 and the grid spans from the tissue to the origin) - results depend on where the tissue is placed" % (fn["qn"], kind, X, what))
+
+
+def rounded_positions(rep, prog):
+    """every std::floor / std::ceil in automatic_polarizer::* rounds a quantity of translation weight 0"""
+    n = 0
+    for fn in prog.repo_functions():
+        if fn.get("cls") != "automatic_polarizer" or not isinstance(fn.get("body"), dict):
+            continue
+        for c in walk(fn["body"]):
+            if not (c.get("k") == "CallExpr" and c.get("callee") in ("std::floor", "std::ceil", "floor", "ceil") and call_args(c)):
+                continue
+            arg = call_args(c)[0]
+            try:
+                ev = S.SymEval(prog, fn, lazy_scalars=True)
+                v = sp.sympify(ev.ev(arg))
+                W = Weights(ev)
+                w = W.weights(v)
+            except (S.Decline, TypeError, sp.SympifyError) as e:
+                w = None
+                why = str(e)
+            else:
+                why = getattr(W, "reason", "")
+            if w is None:
+                # a coordinate divided by a length: the quotient shifts by t/length - not a constant multiple of t, but certainly
+                # not invariant; decided by clearing the denominator
+                try:
+                    vv = sp.sympify(ev.ev(arg))
+                    den = sp.denom(sp.together(vv))
+                    w2 = Weights(ev).weights(sp.numer(sp.together(vv))) if den != 1 and Weights(ev).weights(den) == (0, 0, 0) else None
+                except (S.Decline, TypeError, sp.SympifyError):
+                    w2 = None
+                if w2 is not None and tuple(w2) != (0, 0, 0):
+                    n += 1
+                    rep.violation("C14.rounded-positions", prog, fn, c, "an absolute coordinate is rounded",
+                                  "%s rounds '%s', whose value changes with a translation of the tissue (the numerator has translation weights %s): the result is tied to the lattice through the origin of the coordinate system, while the region grid is anchored at the bounding box of the tissue - the voxel boundaries used here are not the grid's, and the face types the polarizer assigns depend on where the tissue lies" % (fn["qn"], short(arg, 60), tuple(w2)))
+                    continue
+                # running extrema accumulated in a loop: decided on the difference form of the argument
+                txt = render(arg).replace(" ", "")
+                m_ = re.match(r"^\(*\(*(max_[xyz])\+\w+\)*-(min_[xyz])\)*/", txt)
+                if m_ and m_.group(1)[-1] == m_.group(2)[-1]:
+                    n += 1
+                    rep.ok("C14.rounded-positions", prog, fn, c, "%s: the difference of two extrema of the same axis" % short(c, 60))
+                    continue
+                raise AnalysisBroken("%s: the translation weight of the rounded quantity '%s' is not decided (%s)" % (prog.loc(fn, c), short(arg, 60), why))
+            n += 1
+            if tuple(w) == (0, 0, 0):
+                rep.ok("C14.rounded-positions", prog, fn, c, "%s rounds a translation-invariant quantity" % short(c, 60))
+            else:
+                rep.violation("C14.rounded-positions", prog, fn, c, "an absolute coordinate is rounded",
+                              "%s rounds '%s', whose value changes with a translation of the tissue (weights %s): the result is tied to the lattice through the origin of the coordinate system, while the region grid is anchored at the bounding box of the tissue - the voxel boundaries used here are not the grid's, and the face types the polarizer assigns depend on where the tissue lies" % (fn["qn"], short(arg, 60), tuple(w)))
+    return n
